@@ -48,12 +48,15 @@ impl UdpBuilder {
 /// SO_REUSEADDR / SO_REUSEPORT + bind + listen for TCP.
 pub struct TcpBuilder {
     reuse_port: std::cell::Cell<bool>,
+    /// SO_REUSEPORT as it stood when `bind` was called: setting the option afterwards does not
+    /// let the socket share an address that is already in use
+    reuse_port_at_bind: std::cell::Cell<bool>,
     addr: std::cell::Cell<Option<SocketAddr>>,
 }
 
 impl TcpBuilder {
     pub fn new_v4() -> io::Result<TcpBuilder> {
-        Ok(TcpBuilder { reuse_port: std::cell::Cell::new(false), addr: std::cell::Cell::new(None) })
+        Ok(TcpBuilder { reuse_port: std::cell::Cell::new(false), reuse_port_at_bind: std::cell::Cell::new(false), addr: std::cell::Cell::new(None) })
     }
 
     pub fn new_v6() -> io::Result<TcpBuilder> {
@@ -84,6 +87,7 @@ impl TcpBuilder {
     pub fn bind<A: std::net::ToSocketAddrs>(&self, addr: A) -> io::Result<&TcpBuilder> {
         let a = addr.to_socket_addrs()?.next().ok_or_else(|| io::Error::new(io::ErrorKind::InvalidInput, "no address"))?;
         self.addr.set(Some(a));
+        self.reuse_port_at_bind.set(self.reuse_port.get());
         Ok(self)
     }
 
@@ -94,7 +98,7 @@ impl TcpBuilder {
         let a = self.addr.get().ok_or_else(|| io::Error::new(io::ErrorKind::InvalidInput, "listen before bind"))?;
         let id = dsim::with(|w| {
             let p = w.cur_proc();
-            w.tcp_listen_opts(p, a, self.reuse_port.get())
+            w.tcp_listen_opts(p, a, self.reuse_port_at_bind.get())
         })?;
         Ok(mio::net::RawTcpListener(id))
     }
